@@ -373,6 +373,9 @@ def r5(ctx):
                 # mirror negates Raw payloads and keeps mate distances
                 ma = -pa if va == "Raw" else pa
                 mb = -pb if vb == "Raw" else pb
+                if (mir[va], mir[vb]) not in tab or (vb, va) not in tab:
+                    bad.append((f"{va},{vb}", f"Score::cmp has no single result shape for the variant pair ({mir[va]}, {mir[vb]}) or ({vb}, {va}): the order table is incomplete"))
+                    continue
                 lhs = eval_cell(tab[(mir[va], mir[vb])], ma, mb)
                 rhs = eval_cell(tab[(vb, va)], pb, pa)
                 if lhs != rhs:
